@@ -227,7 +227,7 @@ def check_C11(tier, seed):
     out.samples[-1]["text"] = out.samples[-1]["text"][:200]
     out.coverage["bounded_exhaustive"] = {"alphabet": ALPHA, "max_len": maxlen, "cases": n_exh}
     out.coverage["random_long_texts"] = len(cases) - n_exh
-    rule = ("all strings of length <= %d over {a, é, 😀, space, tab, \\n, \\r} x all boundary positions 0..=len x {no file, file name (len<=3)} (exhaustive for that bound), "
+    rule = ("(route level: ten invalid grammars through the build-script helper and the command-line tool, position from the front end, same oracle) + all strings of length <= %d over {a, é, 😀, space, tab, \\n, \\r} x all boundary positions 0..=len x {no file, file name (len<=3)} (exhaustive for that bound), "
             "plus random multi-line texts (LF and CRLF, lines up to %d chars) at positions 0 / len / just before and after newlines / random; oracle = the definition in the statement; every case rendered plain, with colours forced (escape sequences removed before judging), and by a build of the runtime without its `colored` feature. "
             "Non-trivial: text has a newline or a multi-byte character; distinct (text, position, file).") % (maxlen, 500 if tier == "quick" else 2000)
     return out.finish((3 if binp_nc else 2) * len(cases), len(nontriv), rule, exhaustive=False, floor=100,
